@@ -6,7 +6,7 @@ import Chewing.Gen.SysLoader
 /-!
 Context creation and the SYSTEM-side loaders (C12 creation clause, C17 locality of creation).
 
-Modelled code (unix branch, after the repairs bebca64 / eba8cec / d1f9b2e / 3c31d6b of branch wp-newctx):
+Modelled code (unix branch, after the repairs 8bbf0a3 / 90b92ad / 37fe7c3 / 0301be3 of branch wp-newctx):
 
 * `src/path.rs` — `find_path_by_files`, `find_drop_in_dat_by_path`, `sys_path_from_env_var`, `data_dir`,
   `userphrase_path` (`project_data_dir` / `legacy_data_dir` for `target_family = "unix"`, not macOS);
@@ -165,7 +165,7 @@ abbrev AbbrevTable := List (Nat × Text)
 def AbbrevTable.find (t : AbbrevTable) (ch : Nat) : Option Text := (t.find? (fun p => p.1 == ch)).map (·.2)
 
 /-- one line of `swkb.dat`: `<abbr> <expansion>`; a line without a separator or with nothing in front of it is skipped
-    (fix eba8cec; before: `expect("each line should have at last one separator")` / `nth(0).unwrap()` PANICKED) -/
+    (fix 90b92ad; before: `expect("each line should have at last one separator")` / `nth(0).unwrap()` PANICKED) -/
 def abbrevLine (t : AbbrevTable) (l : Text) : AbbrevTable :=
   match splitOnce abbrevSep l with
   | none => t
@@ -175,7 +175,7 @@ def abbrevLine (t : AbbrevTable) (l : Text) : AbbrevTable :=
 /-- `AbbrevTable::open` on the bytes of the file -/
 def parseAbbrev (b : List Nat) : Option AbbrevTable := (textLines b).map (·.foldl abbrevLine [])
 
-/-- the code BEFORE fix eba8cec, for the witness theorems -/
+/-- the code BEFORE fix 90b92ad, for the witness theorems -/
 def abbrevLineOrig (t : AbbrevTable) (l : Text) : Outcome AbbrevTable :=
   match splitOnce abbrevSep l with
   | none => .panic "each line should have at last one separator"
@@ -188,7 +188,7 @@ structure SymAcc where
 deriving Repr, DecidableEq
 
 /-- one line of `symbols.dat`: `<category>=<symbols>` opens a table, any other line is a one-symbol leaf; a BLANK line
-    is skipped (fix 3c31d6b; before it became a leaf category without a name and choosing it panicked,
+    is skipped (fix 0301be3; before it became a leaf category without a name and choosing it panicked,
     `cat.0.chars().next().unwrap()`) -/
 def symbolLine (a : SymAcc) (l : Text) : SymAcc :=
   if l = [] then a
@@ -197,7 +197,7 @@ def symbolLine (a : SymAcc) (l : Text) : SymAcc :=
     | some (c, t) => { category := a.category ++ [(c, some a.table.length)], table := a.table ++ [t] }
     | none => { a with category := a.category ++ [(l, none)] }
 
-/-- the code before fix 3c31d6b -/
+/-- the code before fix 0301be3 -/
 def symbolLineOrig (a : SymAcc) (l : Text) : SymAcc :=
   match splitOnce symbolSep l with
   | some (c, t) => { category := a.category ++ [(c, some a.table.length)], table := a.table ++ [t] }
@@ -339,10 +339,10 @@ def loadUser (us : UserSide U) (fs : FS) (env : Env) (arg : Option Path) : Outco
   | some p =>
     if isMem p then .ok (some us.memory)
     else if (fs p).present then us.file fs p
-    else if parentNone p then .ok none                 -- fix d1f9b2e; before: `.expect("path should contain a filename")` PANICKED
+    else if parentNone p then .ok none                 -- fix 37fe7c3; before: `.expect("path should contain a filename")` PANICKED
     else us.file fs p
 
-/-- the same before fix d1f9b2e -/
+/-- the same before fix 37fe7c3 -/
 def loadUserOrig (us : UserSide U) (fs : FS) (env : Env) (arg : Option Path) : Outcome (Option U) :=
   match (match arg with | some p => some p | none => userphrasePath fs env) with
   | none => .ok none
@@ -448,7 +448,7 @@ def sysHalf (P : Params D U) (fs : FS) (sp : Path) : Outcome (List D × AbbrevTa
 /-- **`chewing_new2(syspath, userpath, logger, data)`** (`chewing_new` = both `null`).  `.ok none` = NULL. -/
 def newContext (P : Params D U) (fs : FS) (env : Env) (syspath userpath : PathArg) : Outcome (Option (NewCtx D U)) :=
   match syspath with
-  | .notUtf8 => .ok none                                 -- fix bebca64; before: `.expect("invalid syspath string")` PANICKED
+  | .notUtf8 => .ok none                                 -- fix 8bbf0a3; before: `.expect("invalid syspath string")` PANICKED
   | _ =>
     let sp := match syspath with
       | .str p => p
@@ -456,7 +456,7 @@ def newContext (P : Params D U) (fs : FS) (env : Env) (syspath userpath : PathAr
     match sysHalf P fs sp with
     | .ok (dicts, abbr, sym) =>
       match userpath with
-      | .notUtf8 => .ok none                             -- fix bebca64 (the second `expect`)
+      | .notUtf8 => .ok none                             -- fix 8bbf0a3 (the second `expect`)
       | _ =>
         let arg := match userpath with
           | .str p => some p
@@ -469,7 +469,7 @@ def newContext (P : Params D U) (fs : FS) (env : Env) (syspath userpath : PathAr
     | .panic s => .panic s
     | .outOfFuel => .outOfFuel
 
-/-- the code before fix bebca64 -/
+/-- the code before fix 8bbf0a3 -/
 def newContextOrig (P : Params D U) (fs : FS) (env : Env) (syspath userpath : PathArg) : Outcome (Option (NewCtx D U)) :=
   match syspath, userpath with
   | .notUtf8, _ => .panic "invalid syspath string"
